@@ -2680,7 +2680,7 @@ func (r *Resolver) lookupDS(ctx context.Context, qname string, cd bool) (msg *dn
 	}
 
 	if len(dsres.Answer) == 0 && len(dsres.Ns) == 0 {
-		return nil, fmt.Errorf("DS or NSEC records not found")
+		return nil, dnssec.ErrNoDSOrDenial
 	}
 
 	return dsres, nil
@@ -3167,7 +3167,7 @@ func (r *Resolver) verifyDNSSEC(ctx context.Context, signer, signed string, resp
 				return false, rootErr
 			}
 			if !ok {
-				return false, fmt.Errorf("root zone keys not verified")
+				return false, dnssec.ErrRootKeysNotVerified
 			}
 			return true, nil
 		}
@@ -3205,7 +3205,7 @@ func (r *Resolver) verifyDNSSEC(ctx context.Context, signer, signed string, resp
 	}
 
 	if len(parentdsRR) == 0 {
-		return false, fmt.Errorf("DS RR set empty")
+		return false, dnssec.ErrEmptyDSSet
 	}
 
 	unsupportedOnly, err := dnssec.VerifyDSWithWork(keys, parentdsRR, r.dnssecWork(ctx))
